@@ -56,6 +56,10 @@ type Step struct {
 
 type Case struct {
 	Steps []Step `json:"steps"`
+	// Fresh compiles a new Regexp for every call; otherwise all calls of the history that use
+	// one timeout value share one Regexp (and with it the pooled interpreter states, whose
+	// deadline field survives from call to call).
+	Fresh bool `json:"fresh_regexp,omitempty"`
 }
 
 func TestMain(m *testing.M) {
@@ -69,6 +73,7 @@ func TestMain(m *testing.M) {
 func genCase(t *rapid.T) Case {
 	n := rapid.IntRange(3, 10).Draw(t, "nsteps")
 	var c Case
+	c.Fresh = rapid.IntRange(0, 3).Draw(t, "freshre") == 0
 	d := func() int {
 		return rapid.SampledFrom([]int{10, 15, 25, 40, 80, 150, 400, 1000, 2000}).Draw(t, "d")
 	}
@@ -101,6 +106,10 @@ func genCase(t *rapid.T) Case {
 			dd := d()
 			w := rapid.IntRange(0, dd/2).Draw(t, "w")
 			c.Steps = append(c.Steps, Step{Kind: "quick", D: dd, W: w})
+			if rapid.IntRange(0, 2).Draw(t, "thenlong") == 0 {
+				// the next deadline must be dated from its own start, not from the quick match before it
+				c.Steps = append(c.Steps, Step{Kind: "long", D: dd, W: dd + rapid.IntRange(20, 200).Draw(t, "extra")})
+			}
 		case 5:
 			c.Steps = append(c.Steps, Step{Kind: "idle", Gap: rapid.SampledFrom([]int{1, 5, 50, 500, 990, 1010, 1100, 2500, 5000}).Draw(t, "gap")})
 		case 6:
@@ -133,12 +142,33 @@ func clockGoroutine() bool {
 
 func ms(n int) time.Duration { return time.Duration(n) * time.Millisecond }
 
-// timed runs one match of w ms with timeout d (0 = untimed) and checks its own bounds.
-func timed(d, w int) string {
+// regexps hands out the Regexps of one history: one per timeout value, or a fresh one per call.
+type regexps struct {
+	fresh bool
+	mu    sync.Mutex
+	m     map[int]*regexp2.Regexp
+}
+
+func (r *regexps) get(d int) *regexp2.Regexp {
+	r.mu.Lock()
+	defer r.mu.Unlock()
+	if re := r.m[d]; re != nil && !r.fresh {
+		return re
+	}
 	re := regexp2.MustCompile("VERIF-SLOW")
 	if d > 0 {
 		re.MatchTimeout = ms(d)
 	}
+	if r.m == nil {
+		r.m = map[int]*regexp2.Regexp{}
+	}
+	r.m[d] = re
+	return re
+}
+
+// timed runs one match of w ms with timeout d (0 = untimed) and checks its own bounds.
+func timed(rs *regexps, d, w int) string {
+	re := rs.get(d)
 	start := time.Now()
 	_, err := re.MatchRunes(make([]rune, w))
 	el := time.Since(start)
@@ -169,6 +199,7 @@ func timed(d, w int) string {
 func runHistory(t *testing.T, c Case) (viol string, labels []string) {
 	synctest.Test(t, func(t *testing.T) {
 		regexp2.VerifResetClock()
+		rs := &regexps{fresh: c.Fresh}
 		lastDeadline := time.Now() // latest time any deadline ends (virtual)
 		idleSince := time.Time{}
 		stopped := false
@@ -203,7 +234,7 @@ func runHistory(t *testing.T, c Case) (viol string, labels []string) {
 					}
 				}
 				note(d)
-				fail(timed(d, st.W))
+				fail(timed(rs, d, st.W))
 				if d > 0 {
 					stopped = false
 				}
@@ -237,6 +268,9 @@ func runHistory(t *testing.T, c Case) (viol string, labels []string) {
 				var ready atomic.Int32
 				for j := range st.Ds {
 					note(st.Ds[j])
+					if !c.Fresh {
+						rs.get(st.Ds[j]) // compiled before the barrier
+					}
 				}
 				for j := range st.Ds {
 					wg.Add(1)
@@ -246,7 +280,7 @@ func runHistory(t *testing.T, c Case) (viol string, labels []string) {
 						ready.Add(1)
 						for !gate.Load() {
 						}
-						res[j] = timed(st.Ds[j], st.Ws[j])
+						res[j] = timed(rs, st.Ds[j], st.Ws[j])
 					}(j)
 				}
 				for int(ready.Load()) < len(st.Ds) {
@@ -276,7 +310,7 @@ func runHistory(t *testing.T, c Case) (viol string, labels []string) {
 		}
 		if viol == "" {
 			// and it is restarted on demand
-			if s := timed(20, 60); s != "" {
+			if s := timed(rs, 20, 60); s != "" {
 				viol = "after the history: " + s
 			}
 		}
